@@ -56,6 +56,9 @@ func genCase(t *rapid.T) Case {
 	// the same id more than once in one update batch (merged in order; the indices must see the net change)
 	ho.AllowDupUpdate = rapid.IntRange(0, 3).Draw(t, "dupUpdate") == 0
 	c := Case{H: gen.History{Schema: schema, MaxPointSize: 1 << 20, CacheLimit: rapid.SampledFrom([]int64{-1, -1, 0, 3000}).Draw(t, "cacheLimit")}}
+	if rapid.IntRange(0, 5).Draw(t, "highIds") == 0 {
+		c.H.FirstNodeId = gen.GenFirstNodeId(t, "firstNode")
+	}
 	g := gen.NewHistoryGen(t, schema, c.H.MaxPointSize, ho)
 	dim, metric := gen.VectorParams(schema[gen.PVamana])
 	n := rapid.IntRange(2, maxSteps).Draw(t, "nsteps")
